@@ -93,17 +93,17 @@ impl<K: Key, V> core::iter::FromIterator<(K, V)> for HashMap<K, V> { fn from_ite
 /// `ItemSet` (a BTreeSet<ItemId> in bindgen): membership array, ascending iteration with a concrete counter
 #[derive(Clone, Debug)]
 pub struct ItemSet { pub present: [bool; NI] }
-pub struct ItemSetIter<'a> { s: &'a ItemSet, i: usize, cur: ItemId, ids: [ItemId; NI] }
+/// iteration: the present ids are compacted once (one loop over NI), then `next` is loop-free
+pub struct ItemSetIter<'a> { s: &'a ItemSet, pos: usize, n: usize, ids: [ItemId; NI] }
 impl ItemSet {
     pub fn new() -> Self { ItemSet { present: [false; NI] } }
     pub fn all() -> Self { ItemSet { present: [true; NI] } }
     pub fn contains(&self, k: &ItemId) -> bool { self.present[k.0] }
     pub fn insert(&mut self, k: ItemId) -> bool { let was = self.present[k.0]; self.present[k.0] = true; !was }
-    pub fn iter(&self) -> ItemSetIter<'_> { ItemSetIter { s: self, i: 0, cur: ItemId(0), ids: core::array::from_fn(|i| ItemId(i)) } }
+    pub fn iter(&self) -> ItemSetIter<'_> { let mut ids = [ItemId(0); NI]; let mut n = 0; let mut k = 0; while k < NI { if self.present[k] { ids[n] = ItemId(k); n += 1; } k += 1; } ItemSetIter { s: self, pos: 0, n, ids } }
 }
 impl<'a> Iterator for ItemSetIter<'a> { type Item = &'a ItemId; fn next(&mut self) -> Option<&'a ItemId> {
-    // concrete counter; skips absent ids
-    while self.i < NI { let k = self.i; self.i += 1; if self.s.present[k] { return Some(unsafe { &*(&self.ids[k] as *const ItemId) }); } } None } }
+    if self.pos < self.n { let k = self.pos; self.pos += 1; Some(unsafe { &*(&self.ids[k] as *const ItemId) }) } else { None } } }
 impl<'a> IntoIterator for &'a ItemSet { type Item = &'a ItemId; type IntoIter = ItemSetIter<'a>; fn into_iter(self) -> Self::IntoIter { self.iter() } }
 
 #[derive(Clone, Debug)]
